@@ -13490,6 +13490,16 @@ impl PeerConnection {
                     receiver_rtx_ssrc: rx.as_ref().and_then(|r| r.rtx_ssrc()),
                     receiver_rtx_apt: apt,
                     receiver_simulcast_rids: rids,
+                    sender_ssrc: *t.sender_ssrc.lock(),
+                    sender_rtx_ssrc: *t.sender_rtx_ssrc.lock(),
+                    sender_rtx_payload_type: *t.sender_rtx_payload_type.lock(),
+                    sender_stream_id: t.sender_stream_id.lock().clone(),
+                    sender_track_id: t.sender_track_id.lock().clone(),
+                    pending_sdes_mid: t
+                        .pending_sdes_mid
+                        .lock()
+                        .as_ref()
+                        .map(|(id, mid)| (*id, mid.to_string())),
                 }
             })
             .collect()
